@@ -8,6 +8,22 @@ def showUnenc : Except Unenc.DErr (Nat × Bytes) → String
   | .error .parity => "err:unencParity"
   | .error .length => "err:unencLength"
 
+/-- one step of `c03.session`: `e:<salt>:<sid>:<msg_id>:<seq_no>:<padding>:<body>` (sealed by the
+specification's server) or `u:<msg_id>:<body>`; the answer is that of `c03.route` / `c03.uroute` — the
+model of the receive path keeps nothing between two packets -/
+def sessionStep (key : Bytes) (t : String) : Option String :=
+  match t.splitOn ":" with
+  | "e" :: salt :: sid :: mid :: seq :: pad :: body =>
+    match salt.toNat?, sid.toNat?, mid.toNat?, seq.toNat?, parseTok? pad, parseTok? (":".intercalate body) with
+    | some salt, some sid, some mid, some seq, some pad, some body =>
+      some (showRouted (route prims key (Spec.serverSeal prims key ⟨salt, sid, mid, seq, body⟩ pad)))
+    | _, _, _, _, _, _ => none
+  | "u" :: mid :: body =>
+    match mid.toNat?, parseTok? (":".intercalate body) with
+    | some mid, some body => some (showRouted (route prims key (Unenc.serialize mid body)))
+    | _, _ => none
+  | _ => none
+
 /-- operations of property C03 (see harness/cmd/vh/c03.go for the Go side of each) -/
 def handle : List String → String
   -- Encrypted.Serialize
@@ -40,6 +56,14 @@ def handle : List String → String
     match mid.toNat?, parseTok? body with
     | some mid, some body => showRouted (route prims [] (Unenc.serialize mid body))
     | _, _ => "bad-op"
+  -- a sequence of server packets read by ONE transport: each is what `c03.route` / `c03.uroute` gives
+  | "c03.session" :: key :: step :: steps =>
+    match parseTok? key with
+    | some key =>
+      match (step :: steps).mapM (sessionStep key) with
+      | some ls => " ; ".intercalate ls
+      | none => "bad-op"
+    | none => "bad-op"
   -- several clients sealing/opening at the same time: an operation about the schedule, not about a
   -- function's value; the model's calls do not share anything, so each client's packets are what
   -- `sealClient`/`openClient` give one by one — the line the Go side prints when that is so
